@@ -10,7 +10,7 @@ from vlib import *
 # bounded instances --------------------------------------------------------------------------
 MC = {
     "quick": dict(MaxH=5, G=100, N=4, MaxInvalid=1, MaxLen=5, Tickets="FALSE", Weights="{1, 2}"),
-    "thorough": dict(MaxH=6, G=100, N=5, MaxInvalid=2, MaxLen=6, Tickets="FALSE", Weights="{1, 2}"),
+    "thorough": dict(MaxH=6, G=100, N=5, MaxInvalid=1, MaxLen=5, Tickets="FALSE", Weights="{1, 2}"),
 }
 GEN = {
     "quick": [dict(MaxH=5, G=100, N=4, MaxInvalid=1, MaxLen=5, Tickets="FALSE", Weights="{1, 2}")],
